@@ -222,7 +222,7 @@ fn o3_3_acknowledge_invalid_id() {
     std::mem::forget(r0); std::mem::forget(r1); std::mem::forget(s);
 }
 
-//@h props=C20,C03,C06,C15 tier=quick timeout=1500 role=sender-ack-valid
+//@h props=C20,C12,C03,C06,C15 tier=quick timeout=1500 role=sender-ack-valid
 //@fn PacketSender::acknowledge
 //@bound W=4, base 2^20-2, two emitted packets (1 and 2 bytes); acknowledged id = ANY valid 20-bit id
 #[kani::proof]
@@ -236,7 +236,7 @@ fn o3_3_acknowledge_any_valid_id() {
     let nb = s.base_id();
     let d = packet_id::sub(nb, base);
     assert!(d <= 2 && s.next_id() == 0, "[C03,C06] base stays within [base, next]");
-    if packet_id::sub(id, base) <= 2 { assert!(nb == id); }
+    if packet_id::sub(id, base) <= 2 { assert!(nb == id, "[C12,C20,C11] the sender releases every packet the receiver reports having moved past, across the id wrap"); }
     else { assert!(nb == base, "[C03,C15] an id outside (base, next] changes nothing"); }
     let expect = if d == 0 { 3 } else if d == 1 { 2 } else { 0 };
     assert!(s.total_size() == expect, "[C20] exactly the acknowledged packets leave the counter");
